@@ -11,6 +11,7 @@ package c19
 import (
 	"encoding/json"
 	"fmt"
+	"reflect"
 	"runtime"
 	"strings"
 	"sync"
@@ -117,6 +118,52 @@ var ops = []op{
 		return sb.String()
 	}},
 	{"dump", func(ms *yang.Modules) string { return dump.Modules(ms, dump.Options{Positions: true}) }},
+	// readers of the statement tree rather than of the entry tree: lookups that walk through uses
+	// statements into groupings, prefix and grouping resolution, paths, sources, printing
+	{"FindNode through uses", func(ms *yang.Modules) string {
+		var sb strings.Builder
+		for _, q := range [][2]string{{"a", "/a:c/gl"}, {"a", "/a:c/gli/k"}, {"b", "/b:bc/gl"}, {"b", "/b:bc/gli/k"}, {"b", "/a:c/x"}, {"a", "/a:c/nosuch"}, {"a", "/a:op/input/oi"}} {
+			n, err := yang.FindNode(ms.Modules[q[0]], q[1])
+			if n != nil && !reflect.ValueOf(n).IsNil() {
+				fmt.Fprintf(&sb, "%s=%s@%s ", q[1], yang.NodePath(n), yang.Source(n))
+			} else {
+				fmt.Fprintf(&sb, "%s=nil(%v) ", q[1], err)
+			}
+		}
+		return sb.String()
+	}},
+	{"AST lookups", func(ms *yang.Modules) string {
+		var sb strings.Builder
+		a, b := ms.Modules["a"], ms.Modules["b"]
+		for _, c := range a.Container {
+			if g := yang.FindGrouping(c, "g", map[string]bool{}); g != nil {
+				fmt.Fprintf(&sb, "g from %s=%s ", c.Name, yang.NodePath(g))
+			}
+			if ch := yang.ChildNode(c, "gl"); ch != nil && !reflect.ValueOf(ch).IsNil() {
+				fmt.Fprintf(&sb, "child gl of %s=%s ", c.Name, yang.NodePath(ch))
+			}
+			fmt.Fprintf(&sb, "root=%s ", yang.RootNode(c).Name)
+		}
+		for _, c := range b.Container {
+			if g := yang.FindGrouping(c, "a:g", map[string]bool{}); g != nil {
+				fmt.Fprintf(&sb, "a:g from %s=%s ", c.Name, yang.NodePath(g))
+			}
+		}
+		if m := yang.FindModuleByPrefix(b, "a"); m != nil {
+			fmt.Fprintf(&sb, "b's a=%s ", m.Name)
+		}
+		for _, i := range b.Import {
+			if m := ms.FindModule(i); m != nil {
+				fmt.Fprintf(&sb, "import %s=%s ", i.Name, m.Name)
+			}
+		}
+		x, err := yang.MatchingExtensions(a, "a", "nothing")
+		fmt.Fprint(&sb, len(x), err, " ")
+		yang.PrintNode(&sb, a.Container[0])
+		a.Source.Write(&sb, " ")
+		fmt.Fprint(&sb, entry(ms, "a").Modules() == ms)
+		return sb.String()
+	}},
 }
 
 // newSet loads and processes the schema and nothing else: no query is issued, so that namespace
@@ -226,7 +273,7 @@ func scenarios(tier string) []Scenario {
 	var out []Scenario
 	n := len(ops)
 	// three readers, one operation each: all multisets of operations
-	quickOps := map[int]bool{0: true, 2: true, 5: true, 6: true, 7: true, 8: true, 9: true, 10: true, 11: true, 13: true}
+	quickOps := map[int]bool{0: true, 2: true, 5: true, 6: true, 7: true, 8: true, 9: true, 10: true, 11: true, 13: true, 15: true}
 	for a := 0; a < n; a++ {
 		for b := a; b < n; b++ {
 			for d := b; d < n; d++ {
@@ -574,6 +621,9 @@ func stressRound(r int) string {
 	for g := 0; g < stressG; g++ {
 		g := g
 		picked[g] = (g*7 + r*3) % len(ops)
+		if r%2 == 1 {
+			picked[g] = ((g/2)*7 + r*3) % len(ops) // odd rounds: two goroutines at a time run the same operation
+		}
 		wg.Add(1)
 		go func() {
 			defer wg.Done()
